@@ -22,6 +22,8 @@ structure DState where
   faulted : Bool := false
   crashed : Bool := false
   stopped : Bool := false
+  /-- greatest eviction boundary ever in force in this history (for the D2 classification) -/
+  maxBd : Option LogId := none
 
 def out (s : String) : IO Unit := IO.println s
 
@@ -80,6 +82,7 @@ def noteEvs (d : DState) (evs : List Ev) : DState :=
       match d.cbMap.find? (fun x => x.1 == id) with
       | some x => { d with ackedN := max d.ackedN x.2 }
       | none => d
+    | .boundary o => if optLt d.maxBd o then { d with maxBd := o } else d
     | .cb _ false => { d with faulted := true }
     | .write _ _ _ false => { d with faulted := true }
     | .sync _ _ false => { d with faulted := true }
@@ -137,6 +140,16 @@ def doWrite (d : DState) (op : Op) : IO DState := do
   | .err .sendFailed => d := { d with stopped := true }
   | _ => pure ()
   return d
+
+/-- Why a cache miss cannot be served (known finding D2): the entry's log id is
+at or below the eviction boundary although its chunk is still the open one, or
+is closed but not yet written by the worker. -/
+def c07Info (s : Store) (fs : Fs) (ld : LogData) (maxBd : Option LogId) : IO Unit := do
+  if (s.cache.get ld.id).isNone && optLe (some ld.id) maxBd then
+    if ld.chunk == s.openId then
+      out s!"#c07 below-boundary-evicted open-chunk {showId ld.id} max-boundary={showOpt maxBd}"
+    else if (fs.readAt ld.chunk (ld.off - ld.chunk) ld.size).isNone then
+      out s!"#c07 below-boundary-evicted unwritten-chunk {showId ld.id} max-boundary={showOpt maxBd}"
 
 def showItems (items : List ReadItem) : String := joinWith ";" (items.map showReadItem)
 def showSpecItems (es : List (LogId × Bytes)) : String :=
@@ -238,6 +251,26 @@ def step (d : DState) (line : String) : IO DState := do
     printEvs evs
     out s!"wst {showPc sys'.worker.pc} q={sys'.worker.queue.length}"
     return noteEvs { d with sys := sys' } evs
+  | ["wack", cbTok] =>
+    -- release the worker (all outcomes ok) until callback `cb` has been delivered
+    match cbTok.toNat? with
+    | none => out "bad-op"; return d
+    | some cb =>
+      let mut d := d
+      let mut n := 0
+      let mut done := false
+      while !done && n < 100000 do
+        if d.sys.worker.quiet then
+          done := true
+        else
+          let (sys', evs) := d.sys.workerStep .ok
+          printEvs evs
+          d := noteEvs { d with sys := sys' } evs
+          if evs.any (fun e => match e with | .cb i _ => i == cb | .cbDropped i => i == cb | _ => false) then
+            done := true
+        n := n + 1
+      out s!"wst {showPc d.sys.worker.pc} q={d.sys.worker.queue.length}"
+      return d
   | ["widle"] =>
     let (sys', evs) := d.sys.workerIdle
     printEvs evs
@@ -261,6 +294,8 @@ def step (d : DState) (line : String) : IO DState := do
     | some s, some a, some b =>
       let (items, s') := s.read d.sys.fs a b
       out s!"read {showItems items}"
+      for (_, ld) in s.log.filter (fun e => a ≤ e.1 && e.1 < b) do
+        c07Info s d.sys.fs ld d.maxBd
       if d.specOn then out s!"=read {showSpecItems (d.spec.read a b)}"
       return { d with sys := { d.sys with store := some s' } }
     | _, _, _ => out "read none"; return d
@@ -268,6 +303,8 @@ def step (d : DState) (line : String) : IO DState := do
     match d.sys.store with
     | some s =>
       out s!"iter {showItems (s.iter d.sys.fs)}"
+      for (_, ld) in s.log do
+        c07Info s d.sys.fs ld d.maxBd
       if d.specOn then out s!"=iter {showSpecItems d.spec.entries}"
     | none => out "iter none"
     return d
@@ -373,11 +410,16 @@ def step (d : DState) (line : String) : IO DState := do
     return d
   | _ => out "bad-op"; return d
 
+def noteBoundary (d : DState) : DState :=
+  match d.sys.store with
+  | some s => if optLt d.maxBd s.cache.lastEvictable then { d with maxBd := s.cache.lastEvictable } else d
+  | none => d
+
 partial def loop (h : IO.FS.Stream) (d : DState) : IO Unit := do
   let line ← h.getLine
   if line.isEmpty then return ()
   let d' ← step d line
-  loop h d'
+  loop h (noteBoundary d')
 
 def main : IO Unit := do
   let stdin ← IO.getStdin
